@@ -30,7 +30,7 @@ I0 == [present |-> FALSE, cfg |-> NoCfg,
        vc |-> {}, st |-> NoStop, halted |-> FALSE,
        burst |-> 0, burstT |-> -1,
        preSince |-> -1,
-       inflight |-> {}, lastEv |-> "", note |-> "", why |-> "", readyAt |-> -1, owes |-> FALSE, cut |-> FALSE, hung |-> {}, verifyAt |-> -1, nbo |-> 0, nrs |-> 0, rnds |-> {}, appCancel |-> FALSE, hpend |-> FALSE, servedSince |-> 0, hadLid |-> FALSE, reconnAt |-> -1]
+       inflight |-> {}, lastEv |-> "", note |-> "", why |-> "", readyAt |-> -1, owes |-> FALSE, cut |-> FALSE, hung |-> {}, verifyAt |-> -1, nbo |-> 0, nrs |-> 0, rnds |-> {}, appCancel |-> FALSE, hpend |-> FALSE, lastReconn |-> -1, servedSince |-> 0, hadLid |-> FALSE, reconnAt |-> -1]
 
 O0 == [scn |-> "", ended |-> TRUE, H |-> 1000000, TTL |-> 3000000, L |-> 0, PT |-> 5000000,
        rec |-> [k \in Keys |-> NoRec], tokens |-> {}, pend |-> {},
@@ -361,6 +361,9 @@ ClaimEdge(o, i, b, e) ==
             THEN {V("C07", "leader_demoted_in_fault_free_operation:" \o x.note, i, e)} ELSE {}
       vg == IF falling /\ x.note = "grace_demote" /\ (x.lastDisc < 0 \/ e.t < x.lastDisc + x.cfg.grace)
             THEN {V("C11", "grace_demotion_before_grace_period_elapsed", i, e)} ELSE {}
+      \* "... if no reconnect notification arrived": the latest notification before the demotion was a reconnect
+      vg2 == IF falling /\ x.note = "grace_demote" /\ x.lastReconn >= 0 /\ x.lastReconn > x.lastDisc
+             THEN {V("C11", "grace_demotion_although_reconnect_notification_arrived", i, e)} ELSE {}
       vh == IF falling /\ (x.note = "health_fail" \/ x.lastEv = "health_u") /\ x.consecU # HealthThreshold(x.cfg.hn)
             THEN {V("C12", "health_demotion_at_wrong_count", i, e)} ELSE {}
       vpend == \E q \in o.pend : q.i = i /\ q.kind = "get" /\ q.src \in {"verify", "validate"}
@@ -369,7 +372,7 @@ ClaimEdge(o, i, b, e) ==
       \* vacancy filled; an instance that stops claiming while the record is vacant is a candidate from now on
       o2 == IF rising /\ r.live /\ r.id = i THEN [o1 EXCEPT !.vacSince[k] = -1]
             ELSE IF falling THEN Rearm(o1, e.t) ELSE o1
-  IN R(o2, vr \cup vf \cup vg \cup vh \cup vv)
+  IN R(o2, vr \cup vf \cup vg \cup vg2 \cup vh \cup vv)
 
 H_m_isleader(o, e) == ClaimEdge(o, e.i, e.v = 1, e)
 
@@ -436,7 +439,7 @@ H_disc(o, e) ==
       EXCEPT !.connEv = TRUE], {})
 H_reconn(o, e) ==
   LET x == o.I[e.i] IN
-  R([SetI(o, e.i, [x EXCEPT !.graceDue = -1, !.verify = "none", !.verifyOwn = FALSE, !.verifyAt = -1,
+  R([SetI(o, e.i, [x EXCEPT !.graceDue = -1, !.lastReconn = e.t, !.verify = "none", !.verifyOwn = FALSE, !.verifyAt = -1,
                             !.reconnAt = IF x.claim /\ x.stopping = 0 THEN e.t ELSE -1])
       EXCEPT !.connEv = TRUE], {})
 H_closed(o, e) == R([o EXCEPT !.connEv = TRUE], {})
